@@ -374,17 +374,67 @@ func c07Drain(w *World, r *Report) {
 		}
 	}
 	r.Check(goes == 1 && closes, "R07.2", "lexer.run closes its channel", rfd.Pos(), "close(l.items) when the state machine ends", "the producer never closes the item channel: a consumer that drains it would block forever, and one that does not leaves the goroutine blocked on its next send")
-	// a drain function: ranges over items
+	// a drain function: a loop that receives from items and is left only when the channel is closed
+	// (`for range l.items {}` and the explicit `v, ok := <-l.items` loop are the same code)
 	var drains []*types.Func
-	for _, fd := range funcDecls(p) {
-		ast.Inspect(fd.Body, func(n ast.Node) bool {
-			if rs, ok := n.(*ast.RangeStmt); ok && fieldOfSel(p, rs.X) == items {
-				if f, ok := p.TypesInfo.Defs[fd.Name].(*types.Func); ok {
-					drains = append(drains, f)
+	for _, f := range allFuncs(w.SSAPkg("parse")) {
+		if f.Parent() != nil || f.Object() == nil {
+			continue
+		}
+		sym := NewSym(w)
+		for _, l := range ssaLoops(f) {
+			body := l.body()
+			var recv *ssa.UnOp
+			for b := range body {
+				for _, in := range b.Instrs {
+					if u, ok := in.(*ssa.UnOp); ok && u.Op == token.ARROW && u.CommaOk {
+						if ld, ok := u.X.(*ssa.UnOp); ok && ld.Op == token.MUL {
+							if fa, ok := ld.X.(*ssa.FieldAddr); ok && isFieldAddrOf(fa, items) {
+								recv = u
+							}
+						}
+					}
 				}
 			}
-			return true
-		})
+			if recv == nil {
+				continue
+			}
+			var okVal ssa.Value
+			for _, ref := range *recv.Referrers() {
+				if ex, isEx := ref.(*ssa.Extract); isEx && ex.Index == 1 {
+					okVal = ex
+				}
+			}
+			if okVal == nil {
+				continue
+			}
+			sym.Name(okVal, "open")
+			onlyWhenClosed := true
+			for b := range body {
+				for _, sc := range b.Succs {
+					if body[sc] {
+						continue
+					}
+					leave := pcAndF(sym.PathCond(l.Header, b, nil), sym.edgeCond(b, sc, nil))
+					has := false
+					msg := pcImplies(leave, func(a *pcAtom) string {
+						if a.key == "open" {
+							has = true
+							return "open"
+						}
+						return ""
+					}, func(env map[string]bool) bool { return !env["open"] })
+					if msg != "" || !has {
+						onlyWhenClosed = false
+					}
+				}
+			}
+			if onlyWhenClosed {
+				if fo, ok := f.Object().(*types.Func); ok {
+					drains = append(drains, fo)
+				}
+			}
+		}
 	}
 	// Tree.recover: error arm calls a drain before stopParse / before giving up the lexer
 	rec := w.Method("parse", "Tree", "recover")
